@@ -27,6 +27,7 @@ Pow2(n) == 2 ^ n
 HasFlag(e, c) == \E i \in 1..Len(e.flags) : SubSeq(e.flags, i, i) = c
 Fld(r, f, d) == IF f \in DOMAIN r THEN r[f] ELSE d
 
+Mtu(e) == IF e = "b" THEN Fld(cfg, "mtu_b", cfg.mtu) ELSE cfg.mtu     \* link MTU of e's interface (asymmetric paths: mtu_b)
 C5Init == [e \in E |-> C5Init0]
 Zero == [e \in E |-> 0]
 Neg == [e \in E |-> -1]
@@ -106,10 +107,10 @@ Emit == /\ IsEvent("emit") /\ "bad" \notin DOMAIN Ev
            \* ---- C04: never beyond the right edge the peer offered, never larger than the peer's MSS / the path MTU
            /\ (len > 0 /\ On("C04")) => /\ off + len <= maxEdge[e]
                                         /\ (mss[p] >= 0 => len <= mss[p])
-                                        /\ \/ Ev.iplen <= cfg.mtu
+                                        /\ \/ Ev.iplen <= Mtu(e)
                                            \* known finding F14: on a path with no room for payload next to a full option area
                                            \* (MTU - IP header - 20 - 40 <= 0: IPv4 MTU <= 80, IPv6 MTU <= 100) the budget is clamped to 1 byte and the SACK option comes on top
-                                           \/ (Fld(cfg, "kf_f14", FALSE) /\ cfg.mtu <= (IF cfg.v = 6 THEN 100 ELSE 80) /\ len = 1 /\ Len(Ev.sack) > 0 /\ Ev.iplen - (8 * Len(Ev.sack) + 4) <= cfg.mtu)
+                                           \/ (Fld(cfg, "kf_f14", FALSE) /\ Mtu(e) <= (IF cfg.v = 6 THEN 100 ELSE 80) /\ len = 1 /\ Len(Ev.sack) > 0 /\ Ev.iplen - (8 * Len(Ev.sack) + 4) <= Mtu(e))
            \* ---- C04: the advertised right edge never moves left (RST carries no window)
            /\ (ack /\ ~rst /\ ~syn /\ On("C04") /\ advEdge[e] >= 0) =>
                   \/ edge >= advEdge[e]
